@@ -136,7 +136,7 @@ Definition launch (v : variant) (d : dapp) (st : state) : outcome state :=
   let l2 := match send MOD SPEND (d_lp d) dep l1 with Ok l => l | _ => l1 end in
   let bs := del_all (d_name d) (covered v (d_name d) (bonds st)) (bonds st) in
   do l3 <- (if 0 <? d_premint d
-            then match send MOD (d_team d) (d_lp d) (d_premint d) l2 with Ok l => Ok l | _ => Panic "premint" end
+            then match send MOD (acct (d_team d)) (d_lp d) (d_premint d) l2 with Ok l => Ok l | _ => Panic "premint" end
             else Ok l2);
   Ok (mkState (now st) (set_dapp (with_ptime (with_status d 3) (now st)) (dapps st)) bs l3).
 
@@ -153,7 +153,7 @@ Definition active_step (c : config) (d : dapp) (st : state) : outcome state :=
   if negb (d_status d =? 1) then Ok st else
   do s1 <- (if ((wrap64 (x_ptime (d_x d) + x_drip (d_x d)) <? now st) && (0 <? d_postmint d))%bool
             then if d_premint d <? 0 then Panic "negative coin amount"
-                 else match send MOD (d_team d) (d_lp d) (d_premint d) (led st) with
+                 else match send MOD (acct (d_team d)) (d_lp d) (d_premint d) (led st) with
                       | Ok l => Ok (mkState (now st) (set_dapp d (dapps st)) (bonds st) l)
                       | _ => Panic "postmint" end
             else Ok st);
